@@ -56,17 +56,32 @@ Record entry := mk_entry {
   e_builtin : bool }.
 Record rstate := mk_rstate {
   r_live : list entry;     (* registered and not removed, in registration order *)
-  r_used : list string;    (* every name ever registered *)
+  r_used : list string;    (* every name ever registered (also the removed ones) *)
   r_dom : bool;            (* the history so far is in the property's domain (DESIGN §8 C17 Domain) *)
-  r_user : bool            (* a call that is not part of the default registration has been seen *)
+  r_user : bool;           (* a call that is not part of the default registration has been seen *)
+  r_ghosts : list (string * N * string)
+    (* bookkeeping for C17_Known only (the specification never reads it): (t, registration of t, n) =
+       a callback n that had asked to run Before/After the live callback t was removed *)
 }.
-Definition r0 := mk_rstate [] [] true false.
+Definition r0 := mk_rstate [] [] true false [].
 
 Definition named (n : string) (e : entry) : bool := String.eqb (e_name e) n.
 Definition find_live (l : list entry) (n : string) : option entry := find (named n) l.
 Definition is_live (l : list entry) (n : string) : bool := existsb (named n) l.
 Definition unconstrained (s : step) : bool :=
   is_none (st_before s) && is_none (st_after s) && st_matched s.
+
+(* the requests of the callback [n] (about to be removed) that name another live callback *)
+Definition new_ghosts (live : list entry) (n : string) : list (string * N * string) :=
+  match find_live live n with
+  | Some e =>
+    flat_map (fun tn => if is_none tn || is_star tn || String.eqb tn n then []
+                        else match find_live live tn with
+                             | Some t => [(tn, e_reg t, n)]
+                             | None => []
+                             end) [e_before e; e_after e]
+  | None => []
+  end.
 
 (* the default registration is a prefix of plain Register calls *)
 Definition builtin_ok (r : rstate) (s : step) : bool :=
@@ -79,22 +94,25 @@ Definition ref_apply (r : rstate) (i : N) (s : step) : rstate :=
   let user := r_user r || negb (st_builtin s) in
   match st_kind s with
   | KRegister =>
-    if negb (st_matched s) then mk_rstate (r_live r) (r_used r) dom user
+    if negb (st_matched s) then mk_rstate (r_live r) (r_used r) dom user (r_ghosts r)
       (* guarded out by Match: never part of the pipeline, by design *)
     else
-      let bad := is_none (st_name s) || is_star (st_name s) || mem (r_used r) (st_name s) in
+      (* a name that is live may not be registered again (the code itself warns "duplicated callback");
+         a name that was removed may *)
+      let bad := is_none (st_name s) || is_star (st_name s) || is_live (r_live r) (st_name s) in
       mk_rstate (r_live r ++ [mk_entry (st_name s) (st_before s) (st_after s) i i (st_builtin s)])
-                (st_name s :: r_used r) (dom && negb bad) user
+                (st_name s :: r_used r) (dom && negb bad) user (r_ghosts r)
   | KReplace =>
     if is_live (r_live r) (st_name s) && unconstrained s
     then mk_rstate (map (fun e => if named (st_name s) e
                                   then mk_entry (e_name e) (e_before e) (e_after e) i (e_reg e) (e_builtin e) else e)
-                        (r_live r)) (r_used r) dom user
-    else mk_rstate (r_live r) (r_used r) false user
+                        (r_live r)) (r_used r) dom user (r_ghosts r)
+    else mk_rstate (r_live r) (r_used r) false user (r_ghosts r)
   | KRemove =>
     if is_live (r_live r) (st_name s) && unconstrained s
     then mk_rstate (filter (fun e => negb (named (st_name s) e)) (r_live r)) (r_used r) dom user
-    else mk_rstate (r_live r) (r_used r) false user
+                   (r_ghosts r ++ new_ghosts (r_live r) (st_name s))
+    else mk_rstate (r_live r) (r_used r) false user (r_ghosts r)
   end.
 
 (* position of a name in the firing order *)
